@@ -35,6 +35,7 @@ Definition show_hval (t : list (list N)) (v : hval) : list N :=
   | VInt z => 73 :: 58 :: Z_to_str z
   | VFloat l => 70 :: 58 :: (match tab_hex t l with Some h => h | None => 63 :: l end)
   | VStr s => 83 :: 58 :: s
+  | VNone => s2l "O:None"
   end.
 Definition show_item (t : list (list N)) (it : hitem) : list N :=
   i_orig it ++ FS :: i_sess it ++ FS :: i_unit it ++ FS :: show_hval t (i_value it) ++ FS :: i_descr it.
